@@ -26,6 +26,9 @@ pub fn gen_case(t: &mut Tape) -> Case {
     let mut c = c01::gen_case(t, cfg);
     c.prog.surface.redundant_parens = t.chance(1, 3);
     let mut src = print::program(&c.prog);
+    if t.chance(1, 3) {
+        src = crate::model::lexdecor::stretch(t, &src);
+    }
     if t.chance(1, 2) {
         src = crate::model::lexdecor::decorate(t, &src);
         if t.chance(1, 3) {
